@@ -87,7 +87,69 @@ def parsePeFunc (s : String) : Option PeFunc :=
            frameOff := ← parseHex foff, infos := infos, textOk := tok == "1", epilogs := epilogs }
   | _ => none
 
-/-- `none` | `dwarf;<pres>;fde|fde|...` | `pe;func|func|...` -/
+def parseCuiReg (c : Char) : Option (Option CuiReg) :=
+  match c with
+  | '-' => some none
+  | 'b' => some (some .rbx)
+  | '2' => some (some .r12)
+  | '3' => some (some .r13)
+  | '4' => some (some .r14)
+  | '5' => some (some .r15)
+  | 'p' => some (some .rbp)
+  | _ => none
+
+/-- `N` | `B` | `I.<size>.<regs>` | `X.<immoff>.<adjust>.<regs>` | `D.<fde>` | `V` | `U.<kind>` -/
+def parseCuiOpX64 (s : String) : Option CuiOpX64 :=
+  match s.splitOn "." with
+  | ["N"] => some .null
+  | ["B"] => some .frameBased
+  | ["V"] => some .invalidFrameless
+  | ["I", size, regs] => do pure (.framelessImmediate (← parseHex size) (← regs.toList.mapM parseCuiReg))
+  | ["X", imm, adj, regs] => do
+    pure (.framelessIndirect (← parseHex imm) (← parseHex adj) (← regs.toList.mapM parseCuiReg))
+  | ["D", fde] => (parseHex fde).map .dwarf
+  | ["U", k] => (parseHex k).map .unrecognized
+  | _ => none
+
+/-- `N` | `L.<size>` | `D.<fde>` | `B` | `U.<kind>` -/
+def parseCuiOpA64 (s : String) : Option CuiOpA64 :=
+  match s.splitOn "." with
+  | ["N"] => some .null
+  | ["B"] => some .frameBased
+  | ["L", size] => (parseHex size).map .frameless
+  | ["D", fde] => (parseHex fde).map .dwarf
+  | ["U", k] => (parseHex k).map .unrecognized
+  | _ => none
+
+/-- `start@stop@x64op@a64op` -/
+def parseCuiFunc (s : String) : Option (CuiFunc (CuiOpX64 × CuiOpA64)) :=
+  match s.splitOn "@" with
+  | [start, stop, x, a] => do
+    pure { start := ← parseHex start, stop := ← parseHex stop, op := (← parseCuiOpX64 x, ← parseCuiOpA64 a) }
+  | _ => none
+
+def parseHexBytes : List Char → Option (List Nat)
+  | [] => some []
+  | a :: b :: rest => do
+    let x ← hexDigit a
+    let y ← hexDigit b
+    let tl ← parseHexBytes rest
+    pure ((x * 16 + y) :: tl)
+  | _ => none
+
+def parseRange (s : String) : Option (Nat × Nat) :=
+  match s.splitOn "-" with
+  | [a, b] => do pure (← parseHex a, ← parseHex b)
+  | _ => none
+
+/-- `off#fde` -/
+def parseEhFde (s : String) : Option (Nat × Fde) :=
+  match s.splitOn "#" with
+  | [o, f] => do pure (← parseHex o, ← parseFde f)
+  | _ => none
+
+/-- `none` | `dwarf;<pres>;fde|fde|...` | `pe;func|func|...` |
+`macho;<stubs a-b>;<helper a-b>;<textoff>:<hexbytes> or -;func|func|...;<- or off#fde|off#fde...>` -/
 def parseData (s : String) : Option UnwindData :=
   match s.splitOn ";" with
   | ["none"] => some .none
@@ -97,6 +159,15 @@ def parseData (s : String) : Option UnwindData :=
   | ["pe", funcs] => do
     let funcs ← if funcs == "" then some [] else (funcs.splitOn "|").mapM parsePeFunc
     pure (.pe funcs)
+  | ["macho", stubs, helper, text, funcs, eh] => do
+    let funcs ← if funcs == "" then some [] else (funcs.splitOn "|").mapM parseCuiFunc
+    let text ← if text == "-" then some none else
+      match text.splitOn ":" with
+      | [o, bytes] => do pure (some (← parseHex o, ← parseHexBytes bytes.toList))
+      | _ => none
+    let eh ← if eh == "-" then some none else
+      (if eh == "" then some [] else (eh.splitOn "|").mapM parseEhFde).map some
+    pure (.macho { funcs := funcs, stubs := ← parseRange stubs, stubHelper := ← parseRange helper, text := text } eh)
   | _ => none
 
 /-- Arch-specific parsing/printing. -/
@@ -170,6 +241,25 @@ def pathTag (A : Arch) (N : Nat) (u : Unw) (c : Cache A.Rule) (addr : FrameAddr)
               | .ok _ _ => "row-generic-ok"
               | .err _ => "row-generic-err"
               | .panic _ => "row-generic-panic"
+        | .macho d _ =>
+          match plan A m rel (!addr.isReturn) with
+          | .panic => "macho-panic"
+          | .staticErr => "macho-static-error"
+          | .exec _ =>
+            (match A.cui d rel (!addr.isReturn) with
+              | some (.needDwarf _) => "macho-dwarf-rule"
+              | _ =>
+                if d.stubs.1 ≤ rel ∧ rel < d.stubs.2 then "macho-stubs"
+                else if d.stubHelper.1 ≤ rel ∧ rel < d.stubHelper.2 then "macho-stub-helper"
+                else match cuiLookup d.funcs rel with
+                  | none => "macho-outside"
+                  | some f => if rel = f.start ∧ !addr.isReturn then "macho-function-start" else "macho-rule")
+          | .generic r =>
+            (match A.generic r (!addr.isReturn) regs mem with
+              | .ok _ _ => "macho-dwarf-generic-ok"
+              | .err _ => "macho-dwarf-generic-err"
+              | .panic _ => "macho-dwarf-generic-panic")
+          | .pe _ => "unreachable"
         | .pe funcs =>
           match A.pePlan funcs rel (!addr.isReturn) with
           | none => "pe-unsupported"
@@ -182,7 +272,7 @@ def pathTag (A : Arch) (N : Nat) (u : Unw) (c : Cache A.Rule) (addr : FrameAddr)
             | .panic _ => "pe-interp-panic"
 
 /-- The row the module's DWARF data yields for a call, if any. -/
-def rowFor (u : Unw) (addr : FrameAddr) : Option Row :=
+def rowFor (A : Arch) (u : Unw) (addr : FrameAddr) : Option Row :=
   match findModule u.mods addr.lookup with
   | none => none
   | some (i, rel) =>
@@ -196,6 +286,12 @@ def rowFor (u : Unw) (addr : FrameAddr) : Option Row :=
         | .row r => some r
         | _ => none
       | .pe _ => none
+      | .macho d eh =>
+        -- entries that defer to DWARF: the row of the named FDE
+        match A.cui d rel (!addr.isReturn), eh with
+        | some (.needDwarf off), some fdes =>
+          (fdes.find? (fun p => p.1 = off)).bind fun p => p.2.rowFor (m.baseSvma + rel)
+        | _, _ => none
 
 /-- What C05 demands of a call on x86-64 when the hypotheses of its theorems hold
 (`C05_x64_compressed_rule_is_dwarf_step`, `C05_x64_generic_is_dwarf_step`,
@@ -312,10 +408,10 @@ def handleWorld (A : Arch) (io : ArchIO A) (st : WState A) (cmd : String)
     pure ({ st with caches := assocSet st.caches cid c' },
       io.showOut out ++ " " ++ showStats c'.stats ++ " t=" ++
         (if touchesSections A st.n u c addr then "1" else "0") ++
-        " spec=" ++ (match (rowFor u addr).bind (fun r => io.specExpect r (!addr.isReturn) regs mem) with
+        " spec=" ++ (match (rowFor A u addr).bind (fun r => io.specExpect r (!addr.isReturn) regs mem) with
           | some e => e.replace " " "|"
           | none => "-") ++
-        " raw=" ++ (match (rowFor u addr).bind (fun r => io.rawSpec r regs mem) with
+        " raw=" ++ (match (rowFor A u addr).bind (fun r => io.rawSpec r regs mem) with
           | some e => e.replace " " "|"
           | none => "-") ++
         " br=" ++ pathTag A st.n u c addr regs mem)
